@@ -743,3 +743,68 @@ def run_smbo_scenario(spec):
     out["tape_len"] = len(tape.lines)
     out["raised"] = raised
     return out
+
+
+# ----------------------------------------------------------------------------- DirectAlgorithm (GFO.Model.Direct)
+
+class _RandintProxy:
+    def __init__(self, tape):
+        self._tape = tape
+
+    def __getattr__(self, name):
+        return getattr(random, name)
+
+    def randint(self, a, b):
+        k = random.randint(a, b)
+        self._tape.add("i", str(int(k)))
+        return k
+
+
+def run_direct_scenario(spec):
+    assert spec["opt"] == "DirectAlgorithm"
+    tape = Tape()
+    holder = {}
+    import gradient_free_optimizers.optimizers.global_opt.direct_algorithm as dam
+
+    def on_built(opt):
+        holder["init_l"] = [[int(x) for x in p] for p in opt.init.init_positions_l]
+        instance_patches(opt, tape)
+    saved_random = dam.random
+    orig_bound = dam.SubSpace.lipschitz_bound_
+
+    def lipschitz_bound_(self_, score, K=1):
+        r_ = orig_bound(self_, score, K)
+        tape.add("v", "1 " + tok_f(float(np.asarray(self_.lipschitz_bound).ravel()[0])))
+        return r_
+    dam.random = _RandintProxy(tape)
+    dam.SubSpace.lipschitz_bound_ = lipschitz_bound_
+    try:
+        with module_patches(tape):
+            out = scen.run_scenario(spec, with_model=False, on_built=on_built)
+    finally:
+        dam.random = saved_random
+        dam.SubSpace.lipschitz_bound_ = orig_bound
+    real = out["real"]
+    opt, rec, records, space = real["opt"], real["rec"], real["records"], real["space"]
+    il = holder["init_l"]
+    cnew = (f"cnew {opt.init.n_inits} {tok_rat(0.3)} {len(il)} " + " ".join(" ".join(str(x) for x in p) for p in il)).rstrip()
+    f = real["f"]
+    lines, expect = drv.encode_history(space, opt.init.n_inits, opt, rec, records, (lambda k, para: f(para)),
+                                       local=dict(lnew=cnew, tape=tape.lines))
+    raised = any(r["exc"] is not None for r in records)
+    if not raised:
+        lines.append("cstate")
+        expect.append("tracker " + tracker_core(opt))
+
+        def show_sub(sb):
+            sizes = "[" + ",".join(str(len(sb.search_space[k])) for k in sb.search_space) + "]"
+            sc = "None" if sb.score is None else tok_f(sb.score)
+            bd = "-" if sb.score is None else tok_f(float(np.asarray(sb.lipschitz_bound).ravel()[0]))
+            return f"{sizes}@{C.show_pos(sb.center_pos)}:{sc}:{bd}"
+        expect.append(f"direct nX={len(opt.X_sample)} Y={C.show_list([tok_f(y) for y in opt.Y_sample], str)} "
+                      f"subs={C.show_list([show_sub(sb) for sb in opt.subspace_l], str)} tapeLeft=0")
+    out.update(lines=lines, expect=expect)
+    out["tape_kinds"] = dict(tape.kinds)
+    out["tape_len"] = len(tape.lines)
+    out["raised"] = raised
+    return out
